@@ -5,7 +5,7 @@ rc=0
 for pair in MC_Selection:MC_Selection_asfound MC_DataStream:MC_DataStream_unchecked MC_CleanWrite:MC_CleanWrite_asfound \
   MC_PelDir:MC_PelDir_noouterbreak MC_PelDir:MC_PelDir_noinnerbreak MC_PrettyPrint:MC_PrettyPrint_asfound \
   MC_SrcCallouts:MC_SrcCallouts_asfound MC_DecodeHistory:MC_DecodeHistory_asfound MC_DecodeHistory:MC_DecodeHistory_osrckey \
-  MC_DecodeHistory:MC_DecodeHistory_pluginsmiss MC_DecodeHistory:MC_DecodeHistory_importescape MC_Listing:MC_Listing_nobarrier MC_Listing:MC_Listing_nosort \
+  MC_DecodeHistory:MC_DecodeHistory_pluginsmiss MC_DecodeHistory:MC_DecodeHistory_importescape MC_Listing:MC_Listing_nobarrier MC_Listing:MC_Listing_openoutside MC_Listing:MC_Listing_nosort \
   MC_HexDump:MC_HexDump_prefirst $EXTRA_REFUTE; do
   m=${pair%%:*}; c=${pair##*:}
   out=$(tools/mc.py mc/$m mc/$c 2>&1 | head -1)
